@@ -57,13 +57,16 @@ static void case_c09(const drvargs_t *a,long id){
     for(int k=0;k<3;k++) cptr[i][k]=cbuf[i][k];
     cd.cfg[i].comments=cptr[i]; cd.cfg[i].ncomments=1+(int)rng_below(&r,3);
   }
+  if(id%20==7 && cd.nlinks>=2){ /* a later link with a 100-200 KB comment: its header pages are of the maximum size (65307 bytes), larger than the chunk the open-time bisection reads */
+    static __thread char big[200001]; static __thread const char *bigp[1]; long bl=(long)rng_range(&r,100000,200000); memcpy(big,"BIG=",4); for(long i=4;i<bl;i++) big[i]=(char)('a'+(i*7)%26); big[bl]=0; bigp[0]=big;
+    int li=1+(int)rng_below(&r,(uint32_t)(cd.nlinks-1)); cd.cfg[li].comments=bigp; cd.cfg[li].ncomments=1; res_count("chains_with_maximum_size_header_pages",1); }
   chain_describe(&cd,desc,sizeof desc);
   if(build_chain(&cd,&phys,loff)){ res_sample("encoder refused: %s",desc); res_end(); buf_free(&phys); return; }
   if(id%12==5){ /* some links carry a second, foreign logical stream multiplexed in (BOS after the Vorbis BOS, pages in between, its end before or after the Vorbis EOS page):
                    vorbisfile ignores streams it does not decode, so nothing it reports about the link may change */
     buf_t q; buf_init(&q); size_t nl2[VH_MAXLINKS+1]; size_t dl=strlen(desc);
     for(int i=0;i<cd.nlinks;i++){ nl2[i]=q.n; buf_t one; one.p=phys.p+loff[i]; one.n=loff[i+1]-loff[i]; one.cap=one.n;
-      if(rng_chance(&r,0.6)){ int where=(int)rng_below(&r,2); mux_add_foreign(&one,0x0f00d000+i,rng_next(&r),where,&q); if(dl+40<sizeof desc) dl+=snprintf(desc+dl,sizeof desc-dl," {link %d +foreign stream, ends %s}",i,where?"after":"before"); }
+      if(rng_chance(&r,0.6)){ int where=(int)rng_below(&r,2); if(rng_chance(&r,0.4)) where|=4; mux_add_foreign(&one,0x0f00d000+i,rng_next(&r),where,&q); if(dl+40<sizeof desc) dl+=snprintf(desc+dl,sizeof desc-dl," {link %d +foreign stream, ends %s}",i,(where&4)?"mid-link":where?"after":"before"); }
       else buf_add(&q,one.p,one.n); }
     nl2[cd.nlinks]=q.n; buf_free(&phys); phys=q; for(int i=0;i<=cd.nlinks;i++) loff[i]=nl2[i]; res_count("chains_with_multiplexed_foreign_streams",1); }
   vh_dump("stream.ogg",phys.p,phys.n);
@@ -82,7 +85,7 @@ static void case_c09(const drvargs_t *a,long id){
       if(ov_pcm_total(&h.vf,i)!=cd.cfg[i].nsamples) res_viol("C09","link-length","link %d: pcm_total %lld, %ld encoded",i,(long long)ov_pcm_total(&h.vf,i),cd.cfg[i].nsamples);
       if(fabs(ov_time_total(&h.vf,i)-(double)cd.cfg[i].nsamples/cd.cfg[i].rate)>1e-9) res_viol("C09","link-time","link %d: %.9f",i,ov_time_total(&h.vf,i));
       if(vc->comments!=cd.cfg[i].ncomments) res_viol("C09","link-comment-count","link %d: %d vs %d",i,vc->comments,cd.cfg[i].ncomments);
-      else for(int k=0;k<vc->comments;k++) if(vc->comment_lengths[k]!=(int)strlen(cbuf[i][k])||memcmp(vc->user_comments[k],cbuf[i][k],vc->comment_lengths[k]))
+      else for(int k=0;k<vc->comments;k++) if(vc->comment_lengths[k]!=(int)strlen(cd.cfg[i].comments[k])||memcmp(vc->user_comments[k],cd.cfg[i].comments[k],vc->comment_lengths[k]))
         res_viol("C09","link-comment-bytes","link %d comment %d",i,k);
       sum+=cd.cfg[i].nsamples; tsum+=(double)cd.cfg[i].nsamples/cd.cfg[i].rate;
     }
@@ -108,6 +111,15 @@ static void case_c09(const drvargs_t *a,long id){
       }
       ref_free(&alone);
     }
+    if(ok && id%12==5){ /* byte seeks into links that carry a foreign stream: the position reported afterwards must be the position of the audio delivered */
+      handle_t hr; memset(&hr,0,sizeof hr);
+      if(h_open(&hr,phys.p,phys.n,1)==0){
+        for(int q=0;q<40 && ok;q++){ ogg_int64_t off=(ogg_int64_t)rng_range(&r,0,(long)phys.n-1); int rs=ov_raw_seek(&hr.vf,off); res_eval(1); if(rs){ res_viol("C09","multiplexed-link:raw-seek-failed","ov_raw_seek(%lld) = %d: %s",(long long)off,rs,desc); ok=0; break; }
+          ogg_int64_t T=ov_pcm_tell(&hr.vf); float **pcm; int bs=-1; long g=ov_read_float(&hr.vf,&pcm,300,&bs); if(g<=0) continue;
+          int l=ref_link_of(&whole,T); if(l<0||l!=bs){ res_viol("C09","multiplexed-link:raw-seek-position","after ov_raw_seek(%lld): tell %lld, bitstream %d, reference link %d: %s",(long long)off,(long long)T,bs,l,desc); ok=0; break; }
+          const reflink_t *W=&whole.l[l]; long idx=(long)(T-W->start); if(idx+g>W->nout){ res_viol("C09","multiplexed-link:raw-seek-position","read crosses the end of link %d: %s",l,desc); ok=0; break; }
+          for(int c=0;c<W->ch;c++) if(memcmp(pcm[c],W->pcm[c]+idx,sizeof(float)*g)){ res_viol("C09","multiplexed-link:raw-seek-audio-differs","after ov_raw_seek(%lld) the handle reports position %lld (link %d) but delivers other audio: %s",(long long)off,(long long)T,l,desc); ok=0; break; } }
+        h_close(&hr); } }
     if(ok) ok=int_linear(phys.p,phys.n,&whole,(id&1)?1:0,-1,0,0,id,"C09",desc);
     if(ok){
       int zero=0,tiny=0; for(int i=0;i<cd.nlinks;i++){ if(cd.cfg[i].nsamples==0)zero=1; else if(cd.cfg[i].nsamples<400)tiny=1; }
